@@ -120,6 +120,9 @@ func (o *Obligation) queryOpt(seed int, relaxed bool, sliced bool) string {
 		if keep != nil && !keep[i] {
 			continue
 		}
+		if l.lemma && o.ExpectSat {
+			continue
+		}
 		b.WriteString(l.text)
 		b.WriteByte('\n')
 	}
